@@ -38,13 +38,17 @@ TEXTS = [
     ["hello"], ["one", "two"], ["one", None, "two"], ["one", " ", "two"], ["42"], ["a --> b"],
     ["<i>x</i> & y"], ["&amp; &lt;"], ["{1}{2}x"], ["one", "two", "three", "four"], ["é ü 漢"],
     ["He said", "...", "nothing"], ["?!"], ["♪ ♪"], ["100% sure %s %d %%"], ["copy C:\\new\\notes.txt \\t \\N"],
+    # one line made of several adjacent text nodes: a metacharacter sequence may only come into being at the joint
+    [("a --", "> b"), "second"], [("x &", "amp; y"), ("1 <", "i> 2")],
 ]
 BAR = ["a|b"]
 
 
 def _captions_lines(lines):
     """visible lines of a caption built from `lines` (None = a break directly after a break)"""
-    return [l.strip() for l in lines if l is not None and l.strip()]
+    # (a tuple is one line made of several adjacent text nodes)
+    flat = ["".join(l) if isinstance(l, tuple) else l for l in lines]
+    return [l.strip() for l in flat if l is not None and l.strip()]
 
 
 class World:
@@ -61,7 +65,9 @@ class World:
         for i, l in enumerate(lines):
             if i:
                 nodes.append(self.ev("CaptionNode.create_break()"))
-            if l is not None:
+            if isinstance(l, tuple):
+                nodes += [self.ev("CaptionNode.create_text(t)", t=piece) for piece in l]
+            elif l is not None:
                 nodes.append(self.ev("CaptionNode.create_text(t)", t=l))
         return self.ev("Caption(s, e, n)", s=s, e=e, n=nodes)
 
@@ -159,6 +165,9 @@ def caption_sets(texts, thorough):
         yield [(s, e, texts[0]), (s + 400, e, texts[1])]
         yield [(s, e, texts[0]), (s, e + 1, texts[1]), (pairs[i + 1][0] + 2000, pairs[i + 1][1] + 2000, texts[4])]
         yield [(s + 1, e + 1, texts[0]), (s, e, texts[1])]
+    # instants that are not whole microseconds (the SCC reader returns such): truncated, never rounded up into the next unit
+    yield [(2268933.333333333, 5004999.999999999, texts[0])]
+    yield [(1000999.6, 2000999.4, texts[0]), (3000999.5, 3999999.9999, texts[1])]
     # captions that are NOT in ascending order of start: one cue per caption, in the set's own order
     for t in range(0, len(texts), 3):
         yield [(pairs[4][0], pairs[4][1], texts[t]), (pairs[1][0], pairs[1][1], texts[(t + 1) % len(texts)]),
@@ -212,6 +221,11 @@ def explore(ctx, thorough):
                 continue
             gl = [[l.strip() for l in c[3] if l.strip()] for c in cues]
             wl = [w[2] for w in want]
+            if any(isinstance(l, tuple) for _, _, ls in caps for l in ls):
+                # a line made of several text nodes: a writer may put a blank at the joints (as the markup writers do);
+                # such lines are compared without white space
+                gl = [[re.sub(r"\s+", "", l) for l in c_] for c_ in gl]
+                wl = [[re.sub(r"\s+", "", l) for l in c_] for c_ in wl]
             if gl != wl:
                 bad["text"].append(dict(case, read_back=gl, required=wl, document=doc[:200]))
         out[name] = (fn, bad, n)
